@@ -58,10 +58,28 @@ def _nontrivial(case):
 # ps_vs_ref
 # ---------------------------------------------------------------------------------------------
 @st.composite
+def matrix_op(draw, n, hbar):
+    """one matrix-parametrised operation on k >= 2 modes listed in any order (cyclic listings of >= 3 modes included):
+    Gaussian(V, r) preparation (native and decomposed), Interferometer(U), GaussianTransform(S)"""
+    k = draw(st.integers(2, n))
+    modes = list(draw(st.permutations(list(range(n))))[:k])
+    what = draw(st.sampled_from(["Gaussian", "Gaussian", "Interferometer", "GaussianTransform"]))
+    if what == "Gaussian":
+        _, V = draw(gen.covariance(k, hbar, ["pure_generic", "mixed_generic", "mixed_diag", "pure_blockdiag"]))
+        r = [draw(gen.fl(-1.0, 1.0)) * np.sqrt(hbar / 2) for _ in range(2 * k)]
+        return ["Gaussian", [spec.enc_matrix(V), spec.enc_vec(r)], modes, {"kw": {"decomp": draw(st.booleans())}}]
+    if what == "Interferometer":
+        return ["Interferometer", [spec.enc_matrix(draw(gen.unitary(k, ["haar"]))[1])], modes, {}]
+    return ["GaussianTransform", [spec.enc_matrix(draw(gen.symplectic(k, 0.5, ["generic"]))[2])], modes, {}]
+
+
+@st.composite
 def ps_case(draw):
     n = draw(st.integers(1, 4))
     hbar = draw(st.sampled_from(HBARS))
     ops_ = draw(gen.op_list(n, ALPH_G2, "ps", 1, 8))
+    if n >= 2 and draw(st.integers(0, 3)) == 0:
+        ops_.insert(draw(st.integers(0, len(ops_))), draw(matrix_op(n, hbar)))
     return {"n": n, "hbar": hbar, "ops": ops_}
 
 
